@@ -23,6 +23,7 @@ class TlcResult:
         self.ok = False  # TLC finished and found no error
         self.timed_out = False
         self.violation = None  # name of violated invariant / property / 'deadlock' / 'assert'
+        self.tlc_error = None  # first line of an error raised by TLC itself (not a property violation)
         self.error_text = ''
         self.generated = 0
         self.distinct = 0
@@ -195,13 +196,14 @@ def parse_output(out, res):
     if not res.violation:
         m = re.search(r'Error: (.*)', out)
         if m and 'Error:' in out:
-            res.violation = 'error'
-    if res.violation:
+            # an error of TLC itself (evaluation error, resource exhaustion, ...): never a verdict about a property
+            res.tlc_error = m.group(1)[:300]
+    if res.violation or res.tlc_error:
         i = out.find('Error:')
         res.error_text = out[i:i + 400000]
     res.prints = parse_prints(out)
     finished = ('Model checking completed' in out) or ('Finished in' in out) or ('Finished computing' in out)
-    res.ok = (res.violation is None) and not res.timed_out and finished
+    res.ok = (res.violation is None) and not res.tlc_error and not res.timed_out and finished
 
 
 def parse_prints(out):
